@@ -1,6 +1,9 @@
 /* mcread_main.h - attribution of a failure to layout attributes, accounting, sweep driver, replay */
 #ifndef MCREAD_MAIN_H
 #define MCREAD_MAIN_H
+#include <sys/resource.h>
+static double cpu_total_s(void) { struct rusage a, b; getrusage(RUSAGE_SELF, &a); getrusage(RUSAGE_CHILDREN, &b);
+    return a.ru_utime.tv_sec + b.ru_utime.tv_sec + a.ru_stime.tv_sec + b.ru_stime.tv_sec + 1e-6 * (a.ru_utime.tv_usec + b.ru_utime.tv_usec + a.ru_stime.tv_usec + b.ru_stime.tv_usec); }
 
 /* ---------- which layout attribute is responsible?  Each non-base attribute of the failing layout is tried alone on the
  * base layout with the same matrix; those that reproduce the same clause name the class.  Memoised per layout. ---------- */
@@ -13,32 +16,47 @@ static unsigned long long layout_key(const layout_t *L, const char *clause) {
                 L->val.mant, L->val.ex, L->hdr, L->sep, L->order, L->nf, L->eol };
     h = hbytes(h, v, sizeof v); return hbytes(h, clause, strlen(clause));
 }
-static void attribute(const layout_t *L, const smat_t *M, const verdict_t *V0, long idx, char *cls, size_t cl) {
+/* site of a crash, precision-neutral: sanitizer:stack-buffer-overflow@dParseIntFormat -> XParseIntFormat */
+static const char *crash_site(const char *cd) {
+    static char b[4][128]; static int k; char *o = b[k++ & 3];
+    const char *a = strchr(cd, '@'); snprintf(o, 128, "%s", a ? a + 1 : cd);
+    if (strchr("sdcz", o[0]) && o[0] && (isupper((unsigned char)o[1]) || !strncmp(o + 1, "read", 4) || !strncmp(o + 1, "allocate", 8))) o[0] = 'X';
+    return o;
+}
+/* same failure? (same status and clause; for a crash the same site) */
+static int same_failure(const verdict_t *a, const verdict_t *b) {
+    return a->status == b->status && !strcmp(a->clause, b->clause) && (a->status != ST_DEATH || !strcmp(crash_site(a->cd), crash_site(b->cd)));
+}
+static void layout_from_attrs(const layout_t *L, unsigned set, layout_t *P) { base_layout(L->rd, P); for (int at = 0; at < A_N; at++) if (set >> at & 1) attr_apply(P, L, at); }
+static void attribute(const layout_t *L, const smat_t *M, const verdict_t *V0, char *cls, size_t cl) {
     layout_t B; base_layout(L->rd, &B);
     unsigned nonbase = 0; int cnt = 0;
     for (int at = 0; at < A_N; at++) if (attr_differs(L, &B, at)) { nonbase |= 1u << at; cnt++; }
     if (cnt <= 1) { layout_class(L, nonbase, cls, cl); return; }
-    char ck[200]; snprintf(ck, sizeof ck, "%d:%s:%s", V0->status, V0->clause, V0->status == ST_DEATH ? V0->cd : "");
+    char ck[200]; snprintf(ck, sizeof ck, "%d:%s:%s", V0->status, V0->clause, V0->status == ST_DEATH ? crash_site(V0->cd) : "");
     unsigned long long key = layout_key(L, ck);
     for (int i = 0; i < MEMO->n; i++) if (MEMO->e[i].key == key) { snprintf(cls, cl, "%s", MEMO->e[i].cls); return; }
-    if (G->noprobe_idx == idx && idx >= 0) { char a[100]; layout_class(L, nonbase, a, sizeof a); snprintf(cls, cl, "combo:%s", a); return; }
     char *keep = malloc(TXN + 1); size_t keepn = TXN; memcpy(keep, TX, TXN + 1);
-    unsigned resp = 0;
+    int save_iso = ISOLATE; ISOLATE = 1;
+    unsigned resp = 0; layout_t P; verdict_t Vp;
     for (int at = 0; at < A_N; at++) if (nonbase >> at & 1) {
-        layout_t P = B; attr_apply(&P, L, at); verdict_t Vp;
-        case_str(&P, M, G->probe_cs, sizeof G->probe_cs); G->probing = 1;
-        if (vf_sh) snprintf((char *)vf_sh->note, sizeof vf_sh->note, "%s", G->probe_cs);
-        cpu_guard(CASE_CPU_S);
-        exec_case(&P, M, &Vp);
-        G->probing = 0; G->probes++;
-        if (Vp.status == V0->status && !strcmp(Vp.clause, V0->clause) && (V0->status != ST_DEATH || !strcmp(Vp.cd, V0->cd))) resp |= 1u << at;
+        layout_from_attrs(L, 1u << at, &P); exec_case(&P, M, &Vp); G->probes++;
+        if (same_failure(&Vp, V0)) resp |= 1u << at;
     }
-    if (resp) layout_class(L, resp, cls, cl); else { char a[100]; layout_class(L, nonbase, a, sizeof a); snprintf(cls, cl, "combo:%s", a); }
+    if (resp) layout_class(L, resp, cls, cl);
+    else {
+        /* an interaction: drop attributes one by one while the failure persists (a 1-minimal set) */
+        unsigned S = nonbase;
+        for (int at = 0; at < A_N; at++) if (S >> at & 1) {
+            layout_from_attrs(L, S & ~(1u << at), &P); exec_case(&P, M, &Vp); G->probes++;
+            if (same_failure(&Vp, V0)) S &= ~(1u << at);
+        }
+        layout_class(L, S, cls, cl);
+    }
+    ISOLATE = save_iso;
     if (MEMO->n < 1024) { MEMO->e[MEMO->n].key = key; snprintf(MEMO->e[MEMO->n].cls, sizeof MEMO->e[0].cls, "%s", cls); MEMO->n++; }
     tx_reset(); tx_put(keep, keepn); free(keep);
 }
-static const char *crash_site(const char *cd) { const char *a = strchr(cd, '@'); return a ? a + 1 : cd; }
-
 static void account(layout_t *L, const smat_t *M, verdict_t *V, const char *cs, long idx) {
     if (V->status == ST_SKIP) { G->skipped++; return; }
     G->runs++; G->judged++;
@@ -51,7 +69,7 @@ static void account(layout_t *L, const smat_t *M, verdict_t *V, const char *cs, 
     char cls[128], sig[300];
     if (!M) snprintf(cls, sizeof cls, "sample");
     else if (!strcmp(V->clause, "symmetric-not-expanded")) cls[0] = 0;
-    else attribute(L, M, V, idx, cls, sizeof cls);
+    else attribute(L, M, V, cls, sizeof cls);
     if (V->status == ST_HANG) { G->hangs++; snprintf(sig, sizeof sig, "%s:crash:hang:%s:%s", PROP, RDN[L->rd], cls); }
     else if (V->status == ST_DEATH) { G->deaths++; snprintf(sig, sizeof sig, "%s:crash:%s:%s:%s", PROP, crash_site(V->cd), RDN[L->rd], cls); }
     else if (!cls[0]) snprintf(sig, sizeof sig, "%s:%s:%s", PROP, RDN[L->rd], V->clause);
@@ -65,22 +83,22 @@ static void run_case(long idx) {
     case_str(&L, M, cs, sizeof cs);
     if (vf_sh) snprintf((char *)vf_sh->note, sizeof vf_sh->note, "%s", cs);
     cpu_guard(CASE_CPU_S);
+    ISOLATE = (G->isolate_idx == idx) || L.pad == PAD_T;     /* trimmed files misparse wildly: always in a child of their own */
     exec_case(&L, M, &V);
+    ISOLATE = 0; cpu_guard(0);
     account(&L, M, &V, cs, idx);
 }
-/* a chunk child died (mem mode): attribute the death to the case (or to the attribution probe) it was running */
+/* the sweep child died while running case idx: run that case again, isolated, so that the death becomes a verdict that
+ * can be attributed.  If it dies again outside the isolated reader call, that is the harness's fault. */
 static long on_death(long idx, int kind, int code) {
-    char cd[128], sig[300], cls[128], cs[400], detail[300]; layout_t L; smat_t M; long resume = idx + 1;
-    vf_crash_desc(kind, code, cd, sizeof cd);
-    if (G->probing && parse_case(G->probe_cs, &L, &M) == 0) { snprintf(cs, sizeof cs, "%s", G->probe_cs); G->probing = 0; G->noprobe_idx = idx; resume = idx; }
-    else { L = LAY[idx / NMAT]; M = MATS[idx % NMAT]; case_str(&L, &M, cs, sizeof cs); }
-    layout_t B; base_layout(L.rd, &B); layout_class(&L, ~0u, cls, sizeof cls);
-    if (!build_fmat(&L, &M)) { layout_fmts(&L); if (L.rd == RD_MT) write_mt(&L); else write_hbrb(&L); } else tx_reset();
-    G->deaths++; G->runs++; G->judged++;
-    snprintf(sig, sizeof sig, "%s:crash:%s:%s:%s", PROP, kind == VF_TIMEOUT ? "timeout" : crash_site(cd), RDN[L.rd], cls);
-    snprintf(detail, sizeof detail, "the process died (%s) while the reader was reading this file", cd);
+    if (G->isolate_idx != idx) { G->isolate_idx = idx; return idx; }
+    char cd[128], cs[400], detail[300], sig[200]; vf_crash_desc(kind, code, cd, sizeof cd);
+    layout_t L = LAY[idx / NMAT]; smat_t M = MATS[idx % NMAT]; case_str(&L, &M, cs, sizeof cs); tx_reset();
+    G->harness_deaths++; G->runs++; G->judged++;
+    snprintf(sig, sizeof sig, "%s:crash:harness:%s", PROP, RDN[L.rd]);
+    snprintf(detail, sizeof detail, "the sweep process died (%s) outside the isolated reader call", cd);
     record_violation(sig, cs, detail);
-    return resume;
+    return idx + 1;
 }
 static int wait_kind(int st, int *code) {
     if (WIFSIGNALED(st)) { *code = WTERMSIG(st); return VF_SIGNAL; }
@@ -133,7 +151,7 @@ int main(int argc, char **argv) {
     MEMO = mmap(NULL, sizeof *MEMO, PROT_READ | PROT_WRITE, MAP_SHARED | MAP_ANONYMOUS, -1, 0);
     VS = mmap(NULL, sizeof *VS, PROT_READ | PROT_WRITE, MAP_SHARED | MAP_ANONYMOUS, -1, 0);
     vf_sh = mmap(NULL, sizeof *vf_sh, PROT_READ | PROT_WRITE, MAP_SHARED | MAP_ANONYMOUS, -1, 0);
-    G->samples_left = 3; G->noprobe_idx = -1;
+    G->samples_left = 3; G->isolate_idx = -1;
     if (getenv("VF_HANG_CPU_MS")) HANG_CPU_S = atof(getenv("VF_HANG_CPU_MS")) * 1e-3;
     PROP = arg_str(argc, argv, "--prop", "C20");
     DUMP = arg_int(argc, argv, "--dump", 0);
@@ -179,9 +197,9 @@ int main(int argc, char **argv) {
     fprintf(vf_out, "{\"type\":\"stats\",\"property\":\"%s\",\"prec\":\"%c\",\"reader\":\"%s\",\"grid\":\"%s\",\"io\":\"%s\",\"slice\":\"%d/%d\",\"matrices\":%d,\"layouts\":%d,\"families\":{%s},"
             "\"cases\":%ld,\"cases_total\":%ld,\"complete\":%s,\"runs\":%ld,\"judged\":%ld,\"skipped\":%ld,\"skip_rule\":\"symmetric type code on a non-symmetric pattern / number does not fit the field\","
             "\"not_enumerated_for_this_layout\":%ld,\"clean\":%ld,\"violations\":%ld,\"hangs\":%ld,\"deaths\":%ld,\"attribution_probes\":%ld,\"distinct_outcomes\":%ld,\"selfcheck\":",
-            PROP, PCH, RDN[rd], grid, io, islice, nslice, NMAT, NLAY, fam, done, mine, complete ? "true" : "false", G->runs, G->judged, G->skipped, G->restricted, G->clean, G->viol, G->hangs, G->deaths, G->probes, G->distinct);
+            PROP, PCH, RDN[rd], grid, io, islice, nslice, NMAT, NLAY, fam, done, mine, complete ? "true" : "false", G->runs, G->judged, G->skipped, G->restricted, G->clean, G->viol, G->hangs, G->deaths, G->harness_deaths, G->probes, G->distinct);
     out_str(vf_out, sc);
-    fprintf(vf_out, ",\"by_sig\":{%s},\"wall_s\":%.2f}\n", bs, now_s() - t0); fflush(vf_out);
+    fprintf(vf_out, ",\"by_sig\":{%s},\"cpu_s\":%.2f,\"wall_s\":%.2f}\n", bs, cpu_total_s(), now_s() - t0); fflush(vf_out);
     return sc_bad ? 3 : 0;
 }
 #endif
